@@ -218,9 +218,16 @@ def struct_case(c):
   metas = [(f[2] if len(f) > 2 else None) for f in c['fields']]
   shared = {'units': 'm'}
   ns = {'__annotations__': {}}
+
+  @struct.dataclass
+  class Other:
+    dyn: object
+    sta: object = struct.field(pytree_node=False, default=0)
+  other_md = {f.name: f.metadata for f in dataclasses.fields(Other)}
   for (name, kind), meta in zip(fields, metas):
     ns['__annotations__'][name] = object
-    md = shared if meta == 'shared' else ({'own': name} if meta == 'own' else None)
+    # 'fwd': the (read-only) metadata of a field of another struct dataclass that is marked the other way, forwarded; the argument decides
+    md = shared if meta == 'shared' else ({'own': name} if meta == 'own' else (other_md['sta' if kind == 'data' else 'dyn'] if meta == 'fwd' else None))
     if kind == 'static' or md is not None:
       ns[name] = struct.field(pytree_node=(kind == 'data'), metadata=md) if md is not None else struct.field(pytree_node=False)
   if c['base'] == 'pytreenode':
@@ -303,8 +310,66 @@ def run_seq_guarded(seed, nsteps):
     signal.alarm(0)
 
 
+def xproc_pickle(seeds):
+  """FrozenDicts with string keys and leaves, hashed (so the hash is cached), pickled here and unpickled in a fresh interpreter with another
+  string-hash seed: there each must be equal to, hash like, and be found as a dict key by the FrozenDict built from the same plain contents"""
+  import os, random, subprocess, sys, base64
+  from flax.core import freeze, unfreeze
+
+  def gen(r, depth=0):
+    d = {}
+    for k in r.sample(['a', 'b', 'c', 'd', 'key%d' % r.randint(0, 99)], r.randint(1, 4)):
+      q = r.random()
+      if q < 0.35 and depth < 2:
+        d[k] = gen(r, depth + 1)
+      elif q < 0.7:
+        d[k] = 'leaf%d' % r.randint(0, 9)
+      elif q < 0.85:
+        d[k] = r.randint(0, 9)
+      else:
+        d[k] = ('t', r.randint(0, 3))
+    return d
+  items = []
+  for sd in seeds:
+    r = random.Random(sd)
+    plain = gen(r)
+    fd = freeze(plain)
+    hashed = r.random() < 0.7
+    if hashed:
+      hash(fd)
+      {fd: 1}
+    inner = [k for k, v in plain.items() if isinstance(v, dict)]
+    if inner and r.random() < 0.5:
+      hash(fd[inner[0]])
+    items.append((plain, fd, hashed))
+  blob = base64.b64encode(pickle.dumps([(p_, f_) for p_, f_, _ in items])).decode()
+  child = (
+      'import jaxcompat, sys, pickle, base64, json\n'
+      'from flax.core import freeze, FrozenDict\n'
+      'out = []\n'
+      'for plain, fd in pickle.loads(base64.b64decode(sys.stdin.read())):\n'
+      '  fresh = freeze(plain)\n'
+      '  out.append([type(fd) is FrozenDict, fd == fresh, hash(fd) == hash(fresh), {fresh: 1}.get(fd) == 1, fd in {fresh}])\n'
+      'print(json.dumps(out))\n')
+  res = []
+  for hs in ('1', '4242'):
+    env = dict(os.environ, PYTHONHASHSEED=hs)
+    pr = subprocess.run([sys.executable, '-c', child], input=blob, capture_output=True, text=True, env=env, timeout=600)
+    if pr.returncode != 0:
+      return {'err': pr.stderr[-400:]}
+    import json as _json
+    rows = _json.loads(pr.stdout.strip().splitlines()[-1])
+    for (plain, _, hashed), row in zip(items, rows):
+      if not all(row):
+        res.append({'plain': repr(plain), 'hashed_before_pickling': hashed, 'child_hashseed': hs,
+                    'is_frozendict/equal/hash_equal/dict_lookup/set_member': row})
+  return {'n': len(items), 'hashed': sum(h for _, _, h in items), 'bad': res[:5], 'nbad': len(res)}
+
+
 def main(payload):
   res = {}
+  if 'xproc' in payload:
+    res['xproc'] = xproc_pickle(payload['xproc'])
   if 'seqs' in payload:
     res['seqs'] = [run_seq_guarded(s, payload['nsteps']) for s in payload['seqs']]
   if 'structs' in payload:
